@@ -18,7 +18,7 @@ RULE = ("seeded typed boolean/integer expressions over 2 int and 2 bool columns 
         "non-trivial = at least one step changed the expression; distinct = distinct input expression")
 ASSUMPTIONS = ["each column's domain is small but contains NULL and every order-relevant value around the constants used"]
 SPEC = {
-    "quick": {"shards": 16, "time_cap": 150, "exprs": 12000},
+    "quick": {"shards": 16, "time_cap": 400, "exprs": 12000},
     "thorough": {"shards": 16, "time_cap": 1500, "exprs": 60000},
 }
 INTS = [None, -1, 0, 1, 2, 3]
